@@ -398,8 +398,8 @@ fn main() {
     }
     let threads = ncpu();
     let exh_len = args.pick(6usize, 8usize);
-    let rand_direct = args.pick(6_000usize, 400_000usize);
-    let rand_engine = args.pick(1_600usize, 60_000usize);
+    let rand_direct = args.pick(20_000usize, 400_000usize);
+    let rand_engine = args.pick(3_000usize, 60_000usize);
     let parts = parallel(threads, args.seed ^ 0xC13, move |ti, mut rng| {
         let mut out = Partial::default();
         let rt = rt();
